@@ -98,6 +98,12 @@ def check_index(acc, lib, S, h, o, keys=None, prefix=True, area_sum=None):
         if as_list != [ij[0], ij[1]] or back_l != back:
             acc.violation(k + ':argument', f'ij_to_s modified the list it was given ({[ij[0], ij[1]]} -> {as_list}) or answered differently for a list ({back_l} vs {back})', case)
             return
+        if S % 7 == 3 or S < 4:
+            # the index may also be given in its decimal text form (s: Union[int, str]); same lattice position required
+            a2 = hilbert.s_to_anchor(str(S), h, o)
+            if tuple(a2.offset) != tuple(anchor.offset) or tuple(a2.flips) != tuple(anchor.flips) or a2.k != anchor.k:
+                acc.violation(k + ':text-index', f's_to_anchor({str(S)!r}) differs from s_to_anchor({S})', case)
+                return
     except Exception as e:
         acc.violation(k + ':raises', f'raised {e!r}', case)
         return
